@@ -139,17 +139,17 @@ Definition working (p : phase) : option name :=
 Definition snap_of (j : N) (x : name) : Prop := n_inst x = j /\ n_kind x = KSnap.
 
 Record inv2 (s : state) : Prop := {
-  n_bucket : forall x, In x (s_bucket s) -> n_seq x < s_next s;
-  n_seen : forall j x, alook (s_seen s) j = Some x -> snap_of j x /\ n_seq x < s_next s;
-  n_pend : forall i m j x, s_pend s = Some (i, m) -> alook m j = Some x -> alook (s_seen s) j = Some x;
-  n_notif : forall j x, s_notif s j = Some x -> snap_of j x /\ n_seq x < s_next s;
-  n_phase : forall j d x, s_dl s j = Some d -> working (d_phase d) = Some x -> snap_of j x;
-  n_last : forall j d x, s_dl s j = Some d -> d_last d = Some x -> snap_of j x;
-  n_ready : forall j x, s_ready s j = Some x -> snap_of j x /\ n_ok x = true;
-  n_merge : forall x, s_merge s = Some x -> n_ok x = true;
-  n_deliv : forall x, In x (s_deliv s) -> n_ok x = true;
-  n_cor : forall x, mem x (s_cor s) = true -> n_ok x = false /\ n_kind x = KSnap;
-  n_ign : forall x, mem x (s_ign s) = true -> n_kind x = KBad \/ mem x (s_cor s) = true
+  q_bucket : forall x, In x (s_bucket s) -> n_seq x < s_next s;
+  q_seen : forall j x, alook (s_seen s) j = Some x -> snap_of j x /\ n_seq x < s_next s;
+  q_pend : forall i m j x, s_pend s = Some (i, m) -> alook m j = Some x -> alook (s_seen s) j = Some x;
+  q_notif : forall j x, s_notif s j = Some x -> snap_of j x /\ n_seq x < s_next s;
+  q_phase : forall j d x, s_dl s j = Some d -> working (d_phase d) = Some x -> snap_of j x;
+  q_last : forall j d x, s_dl s j = Some d -> d_last d = Some x -> snap_of j x;
+  q_ready : forall j x, s_ready s j = Some x -> snap_of j x /\ n_ok x = true;
+  q_merge : forall x, s_merge s = Some x -> n_ok x = true;
+  q_deliv : forall x, In x (s_deliv s) -> n_ok x = true;
+  q_cor : forall x, mem x (s_cor s) = true -> n_ok x = false /\ n_kind x = KSnap;
+  q_ign : forall x, mem x (s_ign s) = true -> n_kind x = KBad \/ mem x (s_cor s) = true
 }.
 
 Lemma pend_of_some i m i' m' : pend_of i m = Some (i', m') -> i' = i /\ m' = m.
@@ -228,3 +228,338 @@ Proof.
   - intros x0 Hx. apply NB. apply mem_In. apply mem_In in Hx. rewrite mem_remove in Hx.
     apply andb_true_iff in Hx. tauto.
 Qed.
+
+(* ------------------------------------------------------------------ *)
+(* 3. notification / download bookkeeping                               *)
+(* ------------------------------------------------------------------ *)
+
+Definition pending_has (s : state) (j : N) (x : name) : Prop :=
+  exists i m, s_pend s = Some (i, m) /\ alook m j = Some x.
+
+(* the downloader will look at lastSeenByInstance again, or is dealing with x, or is done with x *)
+Definition k_ok (d : dler) (x : name) : Prop :=
+  d_sig d = true \/
+  match d_phase d with
+  | Idle => d_last d = Some x
+  | Check | Sleeping => True
+  | WantDl n | HaveDl n | Loaded n | HaveDc n => n = x
+  end.
+
+Record inv3 (c : cfg) (s : state) : Prop := {
+  v_w : forall j d x, s_dl s j = Some d -> working (d_phase d) = Some x -> d_last d <> Some x;
+  v_n : forall j x, alook (s_seen s) j = Some x ->
+          s_notif s j = Some x \/ pending_has s j x \/ (j = c_own c /\ s_ownskip s = true);
+  v_k : forall j x, (j <> c_own c \/ s_ownskip s = false) ->
+          alook (s_seen s) j = Some x -> s_notif s j = Some x ->
+          exists d, s_dl s j = Some d /\ k_ok d x;
+  v_p : forall j x, alook (s_seen s) j = None -> s_notif s j = Some x ->
+          mem x (s_bucket s) = false \/ mem x (s_ign s) = true;
+  v_d : forall j d x, s_dl s j = Some d -> d_last d = Some x ->
+          mem x (s_cor s) = true \/ s_ready s j = Some x \/ last_deliv (s_deliv s) j = Some x;
+  v_rl : forall j d x, s_ready s j = Some x -> s_dl s j = Some d ->
+          d_last d = Some x \/ exists y, d_last d = Some y /\ mem y (s_cor s) = true;
+  v_r : forall j d x, mem x (s_cor s) = true -> alook (s_seen s) j = Some x -> s_dl s j = Some d ->
+          d_last d = Some x /\ working (d_phase d) = None;
+  v_cor_dl : forall x, mem x (s_cor s) = true -> s_dl s (n_inst x) <> None
+}.
+
+Lemma inv3_init c : inv3 c (init c).
+Proof. constructor; cbn; intros; try discriminate; try tauto. Qed.
+
+Ltac scbn := cbn [s_bucket s_next s_seen s_has s_ign s_cor s_notif s_ready s_dl s_dls s_pend s_fdl s_fdc s_merge
+  s_started s_wait s_exited s_deliv s_gone s_init s_ownskip
+  set_bucket set_next set_seen set_has set_ign set_cor set_notif set_ready set_dl set_dls set_pend set_fdl set_fdc
+  set_merge set_started set_wait set_exited set_deliv set_gone set_init set_ownskip d_last d_phase d_sig] in *.
+
+Ltac phase_rw := repeat match goal with HP : d_phase ?d = _ |- _ => rewrite HP in *; clear HP end.
+
+Lemma inv3_w c s l s' : inv2 s -> inv3 c s -> step c s l = Some s' ->
+  forall j d x, s_dl s' j = Some d -> working (d_phase d) = Some x -> d_last d <> Some x.
+Proof.
+  intros I2 [W N K P D RL R CD] H. step_inv H; cbn in *; try assumption.
+  all: try solve [fin].
+  all: intros; upd_cases; inv_some; cbn in *; inv_some; eauto.
+  all: try solve [eapply W; [eassumption | phase_rw; reflexivity]].
+  apply oname_eqb_neq in Heqb. congruence.
+Qed.
+
+Lemma last_deliv_cons x d j : last_deliv (x :: d) j = if n_inst x =? j then Some x else last_deliv d j.
+Proof. reflexivity. Qed.
+
+Lemma inv3_d c s l s' : inv2 s -> inv3 c s -> step c s l = Some s' ->
+  forall j d x, s_dl s' j = Some d -> d_last d = Some x ->
+    mem x (s_cor s') = true \/ s_ready s' j = Some x \/ last_deliv (s_deliv s') j = Some x.
+Proof.
+  intros I2 [W N K P D RL R CD] H. step_inv H; scbn; try assumption.
+  all: try solve [fin].
+  all: intros; upd_cases; inv_some; scbn; inv_some; eauto.
+  - (* decode fail, same instance *) left. rewrite mem_add, name_eqb_refl. reflexivity.
+  - (* decode fail, other instance *)
+    destruct (D _ _ _ H H0) as [A|A]; [left; rewrite mem_add, A, orb_true_r; reflexivity | auto].
+  - (* next, same instance *)
+    rewrite last_deliv_cons. destruct (q_ready _ I2 _ _ Heqo0) as [[A _] _]. rewrite A, N.eqb_refl.
+    destruct (RL _ _ _ Heqo0 H) as [B|(y & B & C)]; rewrite B in H0; inversion H0; subst; auto.
+  - (* next, other instance *)
+    rewrite last_deliv_cons. destruct (q_ready _ I2 _ _ Heqo0) as [[A _] _]. rewrite A.
+    apply N.eqb_neq in E. rewrite N.eqb_sym, E. eauto.
+Qed.
+
+Lemma inv3_rl c s l s' : inv1 c s -> inv2 s -> inv3 c s -> step c s l = Some s' ->
+  forall j d x, s_ready s' j = Some x -> s_dl s' j = Some d ->
+    d_last d = Some x \/ exists y, d_last d = Some y /\ mem y (s_cor s') = true.
+Proof.
+  intros I1 I2 [W N K P D RL R CD] H. step_inv H; scbn; try assumption.
+  all: try solve [fin].
+  all: intros; upd_cases; inv_some; scbn; inv_some; eauto.
+
+  all: try solve [eapply RL; eassumption].
+  - exfalso. apply (i_ready_dl _ _ I1) in H. apply (i_dls _ _ I1) in H. contradiction.
+  - right. exists x. split; [reflexivity|]. rewrite mem_add, name_eqb_refl. reflexivity.
+  - destruct (RL _ _ _ H H0) as [A|(y & A & B)]; [auto|].
+    right. exists y. split; [assumption|]. rewrite mem_add, B, orb_true_r. reflexivity.
+Qed.
+
+Lemma inv3_cd c s l s' : inv2 s -> inv3 c s -> step c s l = Some s' ->
+  forall x, mem x (s_cor s') = true -> s_dl s' (n_inst x) <> None.
+Proof.
+  intros I2 [W N K P D RL R CD] H. step_inv H; scbn; try assumption.
+  all: try solve [fin].
+  all: intros; upd_cases; inv_some; scbn; inv_some; eauto; try congruence.
+  rewrite mem_add in H. apply orb_true_iff in H. destruct H as [H|H]; [|auto].
+  apply name_eqb_eq in H; subst x0. exfalso. apply E.
+  apply (q_phase _ I2 j d x Heqo). rewrite Heqp. reflexivity.
+Qed.
+
+Lemma inv3_r c s l s' : inv2 s -> inv3 c s -> step c s l = Some s' ->
+  forall j d x, mem x (s_cor s') = true -> alook (s_seen s') j = Some x -> s_dl s' j = Some d ->
+          d_last d = Some x /\ working (d_phase d) = None.
+Proof.
+  intros I2 [W N K P D RL R CD] H. step_inv H; scbn; try assumption.
+  all: try solve [fin].
+  all: try match goal with HS : scan _ _ [] = (_, _) |- _ => destruct (scan_spec _ _ _ _ _ HS) as [SA SB] end.
+  all: intros; upd_cases; inv_some; scbn; inv_some; eauto.
+  all: try solve [match goal with HC : mem ?x (s_cor _) = true, HS : alook (s_seen _) ?j = Some ?x, HD : s_dl _ ?j = Some ?d |- _ =>
+         destruct (R j d x HC HS HD) as [RA RB]; phase_rw; cbn in RB; first [discriminate RB | split; [assumption|reflexivity]] end].
+  - (* list ok *) exfalso. rewrite SB in H0. cbn in H0. destruct (newest (s_bucket s) l j) eqn:EN; [|discriminate].
+    inversion H0; subst. apply newest_some in EN. destruct EN as (_ & _ & _ & EN).
+    rewrite SA, mem_add_all, H in EN. discriminate.
+  - exfalso. rewrite SB in H0. cbn in H0. destruct (newest (s_bucket s) l j) eqn:EN; [|discriminate].
+    inversion H0; subst. apply newest_some in EN. destruct EN as (_ & _ & _ & EN).
+    rewrite SA, mem_add_all, H in EN. discriminate.
+  - (* new downloader *) exfalso. apply (CD _ H). destruct (q_seen _ I2 _ _ H0) as [[A _] _]. rewrite A. assumption.
+  - (* check -> WantDl *) exfalso. rewrite Heqo0 in H0. inversion H0; subst.
+    destruct (R _ _ _ H Heqo0 Heqo) as [RA _]. apply oname_eqb_neq in Heqb. congruence.
+  - (* decode fail, same instance *)
+    rewrite mem_add in H. apply orb_true_iff in H. destruct H as [H|H].
+    + apply name_eqb_eq in H; subst. auto.
+    + destruct (R _ _ _ H H0 Heqo) as [_ RB]. rewrite Heqp in RB. discriminate.
+  - (* decode fail, other instance *)
+    rewrite mem_add in H. apply orb_true_iff in H. destruct H as [H|H].
+    + apply name_eqb_eq in H; subst. exfalso. apply E.
+      destruct (q_seen _ I2 _ _ H0) as [[A _] _]. rewrite <- A.
+      apply (q_phase _ I2 j d x Heqo). rewrite Heqp. reflexivity.
+    + eauto.
+Qed.
+
+Lemma pend_of_look i m j x : alook m j = Some x -> exists m', pend_of i m = Some (i, m') /\ alook m' j = Some x.
+Proof. destruct m; cbn; [discriminate|]. intros H. eexists; split; [reflexivity | exact H]. Qed.
+
+Lemma pend_adel b a j k x : k <> j -> alook a k = Some x ->
+  exists i m, pend_of b (adel a j) = Some (i, m) /\ alook m k = Some x.
+Proof.
+  intros NE H. destruct (pend_of_look b (adel a j) k x) as (m' & A & B).
+  - rewrite alook_adel. apply N.eqb_neq in NE. rewrite NE. exact H.
+  - eauto.
+Qed.
+
+Lemma n_other c s b a j k x :
+  s_pend s = Some (b, a) -> k <> j ->
+  (s_notif s k = Some x \/ pending_has s k x \/ (k = c_own c /\ s_ownskip s = true)) ->
+  forall os, (os = true \/ os = s_ownskip s) ->
+  s_notif s k = Some x \/
+  (exists i m, pend_of b (adel a j) = Some (i, m) /\ alook m k = Some x) \/ (k = c_own c /\ os = true).
+Proof.
+  intros HP NE [A|[(i & m & A & B)|[A B]]] os Hos; [auto| |].
+  - rewrite HP in A. inversion A; subst. right. left. apply pend_adel; assumption.
+  - right. right. split; [assumption|]. destruct Hos; congruence.
+Qed.
+
+Lemma inv3_n c s l s' : inv2 s -> inv3 c s -> step c s l = Some s' ->
+  forall j x, alook (s_seen s') j = Some x ->
+          s_notif s' j = Some x \/ pending_has s' j x \/ (j = c_own c /\ s_ownskip s' = true).
+Proof.
+  intros I2 [W N K P D RL R CD] H. step_inv H; scbn; try assumption.
+  all: try solve [fin].
+  all: unfold pending_has; scbn.
+  all: intros; upd_cases; inv_some; scbn; inv_some; eauto.
+  - right. left. destruct (pend_of_look incl a j x H) as (m' & A & B). eauto.
+  - right. left. destruct (pend_of_look incl a j x H) as (m' & A & B). eauto.
+  - (* notify: no change *)
+    destruct (N.eq_dec j0 j) as [->|NE].
+    + left. apply oname_eqb_eq in Heqb0. rewrite <- Heqb0. f_equal.
+      pose proof (q_pend _ I2 _ _ _ _ Heqo Heqo0) as A. congruence.
+    + eapply n_other; eauto.
+  - (* notify: own skipped *)
+    destruct (N.eq_dec j0 j) as [->|NE].
+    + right. right. split; [|reflexivity]. apply andb_true_iff in Heqb1. destruct Heqb1 as [_ A].
+      apply N.eqb_eq in A. exact A.
+    + eapply (n_other c s b a j j0 x Heqo NE (N _ _ H) true). auto.
+  - left. f_equal. pose proof (q_pend _ I2 _ _ _ _ Heqo Heqo0) as A. congruence.
+  - eapply n_other; eauto.
+  - left. f_equal. pose proof (q_pend _ I2 _ _ _ _ Heqo Heqo0) as A. congruence.
+  - eapply n_other; eauto.
+Qed.
+
+Lemma inv3_p c s l s' : inv2 s -> inv3 c s -> step c s l = Some s' ->
+  forall j x, alook (s_seen s') j = None -> s_notif s' j = Some x ->
+          mem x (s_bucket s') = false \/ mem x (s_ign s') = true.
+Proof.
+  intros I2 [W N K P D RL R CD] H. step_inv H; scbn; try assumption.
+  all: try solve [fin].
+  all: try match goal with HS : scan _ _ [] = (_, _) |- _ => destruct (scan_spec _ _ _ _ _ HS) as [SA SB] end.
+  all: intros; upd_cases; inv_some; scbn; inv_some; eauto.
+  - rewrite SB in H. cbn in H. destruct (newest (s_bucket s) l j) eqn:EN; [discriminate|].
+    destruct (mem x (s_bucket s)) eqn:EM; [|auto]. right. apply mem_In in EM.
+    destruct (q_notif _ I2 _ _ H0) as [[A B] _]. eapply newest_none; eauto.
+  - rewrite SB in H. cbn in H. destruct (newest (s_bucket s) l j) eqn:EN; [discriminate|].
+    destruct (mem x (s_bucket s)) eqn:EM; [|auto]. right. apply mem_In in EM.
+    destruct (q_notif _ I2 _ _ H0) as [[A B] _]. eapply newest_none; eauto.
+  - pose proof (q_pend _ I2 _ _ _ _ Heqo Heqo0) as A. congruence.
+  - pose proof (q_pend _ I2 _ _ _ _ Heqo Heqo0) as A. congruence.
+  - destruct (P _ _ H H0) as [A|A]; [|auto]. left. rewrite mem_app, A. cbn.
+    rewrite orb_false_r. apply name_eqb_neq. intros ->.
+    destruct (q_notif _ I2 _ _ H0) as [_ B]. cbn in B. lia.
+  - destruct (P _ _ H H0) as [A|A]; [|auto]. left. rewrite mem_remove, A. apply andb_false_r.
+Qed.
+
+Lemma k_ok_sig d x : d_sig d = true -> k_ok d x.
+Proof. left. assumption. Qed.
+
+Lemma inv3_k c s l s' : inv2 s -> inv3 c s -> step c s l = Some s' ->
+  forall j x, (j <> c_own c \/ s_ownskip s' = false) ->
+          alook (s_seen s') j = Some x -> s_notif s' j = Some x ->
+          exists d, s_dl s' j = Some d /\ k_ok d x.
+Proof.
+  intros I2 [W N K P D RL R CD] H. step_inv H; scbn; try assumption.
+  all: try solve [fin].
+  all: try match goal with HS : scan _ _ [] = (_, _) |- _ => destruct (scan_spec _ _ _ _ _ HS) as [SA SB] end.
+  all: intros; upd_cases; inv_some; scbn; inv_some; eauto.
+  all: try solve [eexists; split; [reflexivity|]; left; reflexivity].
+  all: try solve [match goal with HS : alook (s_seen _) ?j = Some ?x, HN : s_notif _ ?j = Some ?x, HD : s_dl _ ?j = Some ?d |- _ =>
+     let d1 := fresh "d1" in let D1 := fresh "D1" in let KO := fresh "KO" in
+     destruct (K j x ltac:(assumption) HS HN) as (d1 & D1 & KO); rewrite HD in D1; inversion D1; subst d1;
+     eexists; split; [reflexivity|]; unfold k_ok in *; scbn; phase_rw; cbn in *;
+     repeat match goal with HE : oname_eqb _ _ = true |- _ => apply oname_eqb_eq in HE end;
+     intuition congruence end].
+  - rewrite SB in H0. cbn in H0. destruct (newest (s_bucket s) l j) eqn:EN; [|discriminate].
+    inversion H0; subst n. apply newest_some in EN. destruct EN as (A1 & _ & _ & A2).
+    destruct (alook (s_seen s) j) as [z|] eqn:EZ.
+    + destruct (N _ _ EZ) as [B|[(i & m & B & _)|[B1 B2]]].
+      * rewrite B in H1. inversion H1; subst z. apply K; assumption.
+      * unfold pending_has in *; congruence.
+      * destruct H as [H|H]; congruence.
+    + exfalso. destruct (P _ _ EZ H1) as [B|B].
+      * apply mem_In in A1. congruence.
+      * rewrite SA, mem_add_all, B, orb_true_r in A2. discriminate.
+  - rewrite SB in H0. cbn in H0. destruct (newest (s_bucket s) l j) eqn:EN; [|discriminate].
+    inversion H0; subst n. apply newest_some in EN. destruct EN as (A1 & _ & _ & A2).
+    destruct (alook (s_seen s) j) as [z|] eqn:EZ.
+    + destruct (N _ _ EZ) as [B|[(i & m & B & _)|[B1 B2]]].
+      * rewrite B in H1. inversion H1; subst z. apply K; assumption.
+      * unfold pending_has in *; congruence.
+      * destruct H as [H|H]; congruence.
+    + exfalso. destruct (P _ _ EZ H1) as [B|B].
+      * apply mem_In in A1. congruence.
+      * rewrite SA, mem_add_all, B, orb_true_r in A2. discriminate.
+  - apply K; auto. destruct H as [H|H]; [left; assumption | discriminate].
+Qed.
+
+Lemma inv3_step c s l s' : inv1 c s -> inv2 s -> inv3 c s -> step c s l = Some s' -> inv3 c s'.
+Proof.
+  intros I1 I2 I3 H. constructor.
+  - eapply inv3_w; eassumption.
+  - eapply inv3_n; eassumption.
+  - eapply inv3_k; eassumption.
+  - eapply inv3_p; eassumption.
+  - eapply inv3_d; eassumption.
+  - eapply inv3_rl; eassumption.
+  - eapply inv3_r; eassumption.
+  - eapply inv3_cd; eassumption.
+Qed.
+
+(* ------------------------------------------------------------------ *)
+(* 4. the waiting set of syncLoop                                       *)
+(* ------------------------------------------------------------------ *)
+
+Record inv4 (c : cfg) (s : state) : Prop := {
+  o_exit : s_exited s = true -> s_wait s = [] /\ c_once c = true;
+  o_cover : forall j, In j (s_init s) ->
+      In j (s_wait s) \/ (exists x, In x (s_deliv s) /\ n_inst x = j) \/ In j (s_gone s);
+  o_nostart : s_started s = false ->
+      s_wait s = [] /\ s_init s = [] /\ s_deliv s = [] /\ s_dls s = [] /\ s_exited s = false /\ s_pend s = None;
+  o_nodeliv : forall j, In j (s_wait s) -> last_deliv (s_deliv s) j = None
+}.
+
+Lemma inv4_init c : inv4 c (init c).
+Proof. constructor; cbn; intros; try discriminate; try tauto. Qed.
+
+Lemma filter_split (f : N -> bool) l k : In k l -> In k (filter f l) \/ In k (filter (fun j => negb (f j)) l).
+Proof.
+  intros H. destruct (f k) eqn:E.
+  - left. apply filter_In. auto.
+  - right. apply filter_In. rewrite E. auto.
+Qed.
+
+Lemma inv4_step c s l s' : inv1 c s -> inv2 s -> inv4 c s -> step c s l = Some s' -> inv4 c s'.
+Proof.
+  intros I1 I2 [OE OC ON OD] H. step_inv H; constructor; scbn; try assumption.
+  all: try solve [intros; congruence].
+  all: try solve [intros HS; destruct (ON HS) as (A1 & A2 & A3 & A4 & A5 & A6); first [congruence | repeat split; congruence]].
+  - (* first listing *) intros HE. destruct (ON eq_refl) as (_ & _ & _ & _ & A5 & _). congruence.
+  - intros j Hj. auto.
+  - intros j Hj. destruct (ON eq_refl) as (_ & _ & A3 & _). rewrite A3. reflexivity.
+  - (* next *) intros j0 Hj. destruct (N.eq_dec j0 j) as [->|NE].
+    + right. left. exists n. split; [left; reflexivity|]. apply (q_ready _ I2 _ _ Heqo0).
+    + destruct (OC _ Hj) as [A|[(x & A & B)|A]]; [left; apply In_removeN; auto | right; left; exists x; split; [right|]; auto | auto].
+  - intros HS. destruct (ON HS) as (_ & _ & _ & A4 & _). exfalso.
+    apply (i_ready_dl _ _ I1) in Heqo0. rewrite A4 in Heqo0. destruct Heqo0.
+  - intros j0 Hj. apply In_removeN in Hj. destruct Hj as [Hj NE]. rewrite last_deliv_cons.
+    destruct (q_ready _ I2 _ _ Heqo0) as [[A _] _]. rewrite A. apply N.eqb_neq in NE. rewrite N.eqb_sym, NE. auto.
+  - (* bottom, waiting set empty *) intros HE. apply andb_true_iff in HE. tauto.
+  - intros j Hj. destruct (OC _ Hj) as [A|[A|A]]; [|auto|right; right; apply in_app_iff; auto].
+    destruct (filter_split (fun j => memN j (seen_insts s)) _ _ A) as [B|B].
+    + unfold still_seen in Heql. rewrite Heql in B. destruct B.
+    + right. right. apply in_app_iff. right. exact B.
+  - apply orb_false_iff in Heqb. destruct Heqb as [A _]. apply negb_false_iff in A. congruence.
+  - intros j [].
+  - (* bottom, still waiting *) rewrite andb_false_r. discriminate.
+  - intros j Hj. destruct (OC _ Hj) as [A|[A|A]]; [|auto|right; right; apply in_app_iff; auto].
+    destruct (filter_split (fun j => memN j (seen_insts s)) _ _ A) as [B|B].
+    + unfold still_seen in Heql. rewrite Heql in B. auto.
+    + right. right. apply in_app_iff. right. exact B.
+  - apply orb_false_iff in Heqb. destruct Heqb as [A _]. apply negb_false_iff in A. congruence.
+  - intros j Hj. apply OD. rewrite <- Heql in Hj. unfold still_seen in Hj. apply filter_In in Hj. tauto.
+Qed.
+
+(* ------------------------------------------------------------------ *)
+(* all together                                                         *)
+(* ------------------------------------------------------------------ *)
+
+Record inv (c : cfg) (s : state) : Prop := {
+  inv_1 : inv1 c s; inv_2 : inv2 s; inv_3 : inv3 c s; inv_4 : inv4 c s
+}.
+
+Lemma inv_init c : inv c (init c).
+Proof. constructor; [apply inv1_init | apply inv2_init | apply inv3_init | apply inv4_init]. Qed.
+
+Lemma inv_step c s l s' : inv c s -> step c s l = Some s' -> inv c s'.
+Proof.
+  intros [I1 I2 I3 I4] H. constructor.
+  - eapply inv1_step; eassumption.
+  - eapply inv2_step; eassumption.
+  - eapply inv3_step; eassumption.
+  - eapply inv4_step; eassumption.
+Qed.
+
+Lemma reach_inv c h s : reach c h s -> inv c s.
+Proof. induction 1; [apply inv_init | eapply inv_step; eassumption]. Qed.
